@@ -1426,7 +1426,7 @@ func runC19(ctx *Ctx) *Result {
 		"random scenarios, then parallel invocations. Compared with the Lean model after every event: exit status, line trace, tree. " +
 		"non-trivial = at least one commit and one plan action that fired (or a parallel start); distinct by scenario text"
 	res.Assumptions = []string{
-		"kills happen between main-shell simple commands (SIGKILL from the DEBUG trap); a kill inside a running child is not exercised",
+		"kills happen between main-shell simple commands (SIGKILL from the DEBUG trap) or at the start of the child of one command (O/On: the child finishes its command as an orphan)",
 		"after a kill the harness waits until the already forked elements of a pipeline have ended (they inherit fd 9 and keep the flock for a moment; a second invocation started in that moment would exit 1, which the model does not show)",
 		"git 2.39 defaults: pull without strategy refuses divergent branches; no pull.rebase configured for the system user",
 		"stub compiler: succeeds iff the source tree has no file BAD; mail, sudo are stubs",
@@ -1461,16 +1461,16 @@ func runC19(ctx *Ctx) *Result {
 	scs = append(scs, corpus...)
 	// some seeded random scenarios right after the corpus, so that the quick tier reaches them before
 	// its time budget ends (the rest of the random stream comes last)
-	for i := 0; i < ctx.N(16, 40); i++ {
+	for i := 0; i < ctx.N(16, 150); i++ {
 		sc := genScenario(ctx.Rng.Fork(), 6)
 		sc.Src = "random"
 		scs = append(scs, sc)
 	}
 	// … and a few parallel starts
-	for i := 0; i < 3; i++ {
+	for i := 0; i < ctx.N(3, 24); i++ {
 		rng := ctx.Rng.Fork()
 		sc := scenario{Kind: "par", SysEmail: rng.Bool(), Par: 2 + rng.Intn(3), Events: []string{"r:", "c:g:-:1"}}
-		if i == 2 {
+		if i%3 == 2 {
 			sc.Events = []string{genCommit(rng)}
 		}
 		scs = append(scs, sc)
